@@ -113,8 +113,15 @@ Step == /\ l <= Len(T.events)
                   LET mg == mgrs[e.m] IN
                   /\ Record(PostClauses(e, mg))
                   /\ IF T.detail = 1
-                     THEN LET P == Post(e.c, mg, store) IN
-                          /\ mgrs' = [mgrs EXCEPT ![e.m] = P.m]
+                     THEN LET P == Post(e.c, mg, store)
+                              \* ACCEPTANCE IS OBSERVED, never taken from the model: a post that returned is part
+                              \* of the posted set (whatever its operator), a post that raised is not.  Only the
+                              \* detail fields (cnf, cod, aux) follow the model.
+                              acc == e.refused = 0
+                          IN
+                          /\ mgrs' = [mgrs EXCEPT ![e.m] = [P.m EXCEPT
+                                          !.allowed = IF acc THEN mg.allowed \cap SatSet(e.c) ELSE mg.allowed,
+                                          !.posted = IF acc THEN Append(mg.posted, e.c) ELSE mg.posted]]
                           /\ store' = P.store
                           /\ drift' = drift \cup { <<l, d>> : d \in RefusalDrift(e) }
                                 \cup (IF (e.refused = 1) = P.refused THEN {} ELSE {<<l, "refusal">>})
